@@ -37,7 +37,10 @@ func (o sbOp) String() string {
 
 var c18Alphabet = []sbOp{{'P', 0}, {'P', 1}, {'P', 3}, {'P', 8}, {'P', 100}, {'A', 0}, {'A', 1}, {'A', 3}, {'A', 8}, {'A', 100}, {'C', 0}, {'L', 0}}
 
-type sbHint struct{ fresh bool; pre, app int }
+type sbHint struct {
+	fresh    bool
+	pre, app int
+}
 
 var c18Hints = []sbHint{{true, 0, 0}, {false, 0, 0}, {false, 1, 0}, {false, 0, 1}, {false, 8, 8}, {false, 100, 3}}
 
